@@ -26,17 +26,13 @@ class CurveFit:
 
     @classmethod
     def fitCurve(self, data, error, cornerTolerance, maxSegments):
-        # We want to uniqify the points but maintaining order
-        # (so we can't use a set). An ordered set would be too heavy for this.
-        keys = {}
-
-        def filterSeen(x):
-            if hash(x) in keys:
-                return False
-            keys[hash(x)] = 1
-            return True
-
-        data = list(filter(filterSeen, data))
+        # Remove adjacent duplicate points only: a stroke may revisit a point
+        # (e.g. close on itself) and must still end at its last point.
+        deduped = []
+        for x in data:
+            if len(deduped) == 0 or hash(x) != hash(deduped[-1]):
+                deduped.append(x)
+        data = deduped
         if len(data) < 2:
             return
         return self._fitCurve(data, None, None, error, cornerTolerance, maxSegments)
